@@ -803,3 +803,93 @@ def rule_deletion_safe(rep: Report, repo: Repo):
             detail = f"`{tname}[{k2}] = {v2}`; series data `{D}`"
         rep.check(ok, R, f"algorithm_parsing::series_computation `{tname}` holds, for every term, the keys of the data its series starts with",
                   detail, loc(fills[0] if fills else sc))
+
+
+# ---------------------------------------------------------------------------
+# the names the generated code calls: what the exec scope binds them to
+# ---------------------------------------------------------------------------
+
+
+def _import_origin(tree: ast.Module, name: str):
+    """(module, original name) a module-level name is imported from, or None."""
+    for n in tree.body:
+        if isinstance(n, ast.ImportFrom):
+            for a in n.names:
+                if (a.asname or a.name) == name:
+                    return (n.module, a.name)
+    return None
+
+
+def rule_exec_scope(rep: Report, repo: Repo):
+    """The generated evals call `Dagger`, `zero`, `_zero_sum`, `_safe_divide`, `series`, `del_` ... by name; the exec scope
+    must bind each of these names to the object the reference semantics means.  `Dagger` in particular must be the adjoint
+    for every value type: either sympy's Dagger itself or a package function every returning path of which denotes the
+    adjoint (a plain transpose on some path is reported)."""
+    from .core import own_nodes
+    from .sem import canon, outcomes
+    R = "E9.exec_scope"
+    sc = repo.find("algorithm_parsing::series_computation", R)
+    loc = lambda n: repo.loc("algorithm_parsing", n)
+    es = [n for n in own_nodes(sc) if isinstance(n, ast.Assign) and isinstance(n.value, ast.Dict)
+          and any(isinstance(k, ast.Constant) and k.value == "Dagger" for k in n.value.keys if k is not None)]
+    if len(es) != 1:
+        raise AnalysisError(R, "exec scope dictionary (with a `Dagger` entry) not found in series_computation")
+    d = es[0].value
+    dd = {k.value: v for k, v in zip(d.keys, d.values) if isinstance(k, ast.Constant)}
+    tree = repo.trees["algorithm_parsing"]
+    # identity bindings: the scope name is the module-level / local object of the same name
+    for nm, origin in (("zero", ("pymablock.series", "zero")), ("_zero_sum", None), ("_safe_divide", None)):
+        v = dd.get(nm)
+        ok = v is not None and norm(v) == nm and (origin is None or _import_origin(tree, nm) == origin)
+        rep.check(ok, R, f"algorithm_parsing::series_computation exec scope binds `{nm}` to the package's own `{nm}`",
+                  norm(v) if v is not None else "missing", loc(es[0]))
+    for nm in ("series", "linear_operator_series", "del_"):
+        v = dd.get(nm)
+        rep.check(v is not None and norm(v) == nm, R, f"algorithm_parsing::series_computation exec scope binds `{nm}` to the local `{nm}`",
+                  norm(v) if v is not None else "missing", loc(es[0]))
+    # Dagger
+    v = dd.get("Dagger")
+    if not isinstance(v, ast.Name):
+        raise AnalysisError(R, f"`Dagger` is bound to `{norm(v)[:50]}`: not a name")
+    org = _import_origin(tree, v.id)
+    if org == ("sympy.physics.quantum", "Dagger"):
+        rep.ok(R, "algorithm_parsing::series_computation exec scope binds `Dagger` to the adjoint", "sympy.physics.quantum.Dagger", loc(es[0]))
+        return
+    fn = None
+    if org is not None and org[0].startswith("pymablock."):
+        modname = org[0].split(".", 1)[1]
+        if modname in repo.trees:
+            fn = next((n for n in repo.trees[modname].body if isinstance(n, ast.FunctionDef) and n.name == org[1]), None)
+            fmod = modname
+    else:
+        fn = next((n for n in tree.body if isinstance(n, ast.FunctionDef) and n.name == v.id), None)
+        fmod = "algorithm_parsing"
+    if fn is None or len(fn.args.args) != 1:
+        raise AnalysisError(R, f"`Dagger` is bound to `{v.id}` whose definition was not found as a one-argument package function")
+    a = fn.args.args[0].arg
+    ADJ = {f"Dagger({a})", f"{a}.conj().T", f"{a}.H", f"{a}.getH()", f"{a}.adjoint()", f"np.conj({a}).T", f"np.conj({a}.T)", f"{a}.conj().transpose()",
+           f"np.conjugate({a}).T", f"{a}.T.conj()"}
+    TRANS = {f"{a}.T", f"{a}.transpose()", f"np.transpose({a})"}
+    wrong, unknown = [], []
+    for o in outcomes(fn.body, None, env={}, expand=False):
+        if o.kind != "return":
+            continue
+        e = o.value
+        # storage-format conversions on top do not change the value
+        while isinstance(e, ast.Call) and isinstance(e.func, ast.Attribute) and e.func.attr in ("tocsr", "tocsc", "tocoo", "copy", "asformat"):
+            e = e.func.value
+        t = norm(canon(e))
+        if t in ADJ or norm(e) in ADJ:
+            continue
+        if t in TRANS or norm(e) in TRANS:
+            wrong.append((o, norm(o.value)))
+        else:
+            unknown.append(norm(o.value))
+    for o, txt in wrong:
+        rep.fail(R, f"{fmod}::{fn.name} (bound to `Dagger` in the exec scope) returns `{txt}` on a path",
+                 "a transpose without complex conjugation: adjoint fills, `.adj` and the Hermitian shortcuts are wrong for complex values "
+                 "of that type; path: " + "; ".join(f"{'' if p else 'not '}{norm(t)[:40]}" for t, p in o.conds), repo.loc(fmod, o.node))
+    if unknown and not wrong:
+        raise AnalysisError(R, f"{fmod}::{fn.name} (bound to `Dagger`) returns `{unknown[0][:60]}`: not recognised as the adjoint")
+    if not wrong:
+        rep.ok(R, "algorithm_parsing::series_computation exec scope binds `Dagger` to the adjoint", f"{fmod}::{fn.name}: every path returns the adjoint", loc(es[0]))
